@@ -30,7 +30,18 @@ def seFieldsR (rec : Id → Val → Except E Json) (σ : Space) :
     List Field → List (String × Val) → Except E (List (String × Json))
   | [], [] => .ok []
   | p :: ps, (_, v) :: fs =>
-    if p.rename == .flatten then .error .unsupported else
+    if p.rename == .flatten then
+      -- FlatMapSerializer: a struct / map / tagged enum contributes its entries in place, `None` and `()` nothing
+      (match seFieldsR rec σ ps fs with
+       | .error e => .error e
+       | .ok rest =>
+         if skipped σ p v then .ok rest else
+         match rec p.ty v with
+         | .ok (.obj es) => .ok (es ++ rest)
+         | .ok .null => .ok rest
+         | .ok _ => .error .reject
+         | .error e => .error e)
+    else
     match seFieldsR rec σ ps fs with
     | .error e => .error e
     | .ok rest =>
